@@ -14,6 +14,8 @@ func NewSelfLearnRoute() *SelfLearnRoute {
 }
 
 func (sl *SelfLearnRoute) AddRoute(ip string, transport ServerTransport) {
+	vt("sl.begin", sl, "w")
+	defer vt("sl.end", sl, "w")
 	old, ok := sl.route[ip]
 	if ok && sl.isSameTransport(old, transport) {
 		return
@@ -29,6 +31,8 @@ func (sl *SelfLearnRoute) isSameTransport(transport1 ServerTransport, transport2
 }
 
 func (sl *SelfLearnRoute) GetRoute(ip string) (ServerTransport, bool) {
+	vt("sl.begin", sl, "r")
+	defer vt("sl.end", sl, "r")
 	transport, ok := sl.route[ip]
 	if ok {
 		zap.L().Info("Succeed to get route for ip", zap.String("ip", ip), zap.String("protocol", transport.GetProtocol()), zap.String("addr", transport.GetAddress()), zap.Int("port", transport.GetPort()))
